@@ -41,6 +41,14 @@ def fb(frame, event, arg):
     return None
 
 
+def fc_(frame, event, arg):
+    return None
+
+
+def fd_(frame, event, arg):
+    return None
+
+
 def bounds(tier):
     return {'history_length': 4, 'environments': 2 * 2 * 2 * 3, 'faults': FAULTS, 'race_preemptions': 2 if tier == 'quick' else 3}
 
@@ -52,11 +60,33 @@ def histories():
     return out
 
 
+def swap_histories():
+    """Histories in which the host replaces its own trace functions while the agent is stopped."""
+    out = []
+    for n in (2, 3, 4, 5):
+        for h in itertools.product(('start', 'shutdown', 'swap'), repeat=n):
+            if 'swap' not in h or 'start' not in h:
+                continue
+            started, ok = False, True
+            for op in h:
+                if op == 'swap' and started:
+                    ok = False
+                    break
+                started = True if op == 'start' else False if op == 'shutdown' else started
+            if ok and (n < 5 or h.count('start') >= 2):
+                out.append(list(h))
+    return out
+
+
 def cases(tier, seed):
     out = []
     for h in histories():
         for st, tt, nt, np in itertools.product((0, 1), (0, 1), (0, 1), (0, 1, 2)):
             out.append({'k': 'hist', 'h': h, 'sys': st, 'thr': tt, 'no_trace': nt, 'plugins': np})
+    for h in swap_histories():
+        for st, nt in itertools.product((0, 1), (0, 1)):
+            for f in ('none', 'poll_exc'):
+                out.append({'k': 'hist', 'h': h, 'sys': st, 'thr': st, 'no_trace': nt, 'plugins': 1, 'fault': f})
     for nsh in range(8):
         out.append({'k': 'race', 'bound': bounds(tier)['race_preemptions'], 'shard': [nsh, 8]})
     return out
@@ -152,8 +182,15 @@ def drive(ctx, desc, w, hist, pre, chan, j, ns, path, label, pnames):
     handler = d.trigger_handler
     model = {'started': False, 'ever_shutdown': False, 'installed': False}
     case = dict(desc)
+    pre = list(pre)
     for i, op in enumerate(hist):
         where = f'{label}, after op #{i} {op}'
+        if op == 'swap':
+            # the host installs other trace functions of its own while the agent is stopped
+            pre = [fc_, fd_] if pre[0] is not fc_ else [fa, fb]
+            threading.settrace(pre[1])
+            sys.settrace(pre[0])
+            continue
         restart = op == 'start' and model['ever_shutdown']
         was_started = model['started']
         exc = None
@@ -172,6 +209,13 @@ def drive(ctx, desc, w, hist, pre, chan, j, ns, path, label, pnames):
                 if agent_hooks and not d.started and not desc['no_trace']:
                     ctx.violation('C14/restart/hooks-installed-but-not-started', f'{where}: start raised {exc!r}; the agent\'s trace function stays '
                                                                                  f'installed while started=False, so no later shutdown removes it', case)
+                    return 'violation'
+                if exc is None and d.started and not desc['no_trace'] and not agent_hooks:
+                    ctx.violation('C14/restart/started-without-hooks', f'{where}: the second start returned normally and started=True, but the agent\'s '
+                                                                      f'trace functions are not installed ({cur})', case)
+                    return 'violation'
+                if not d.started and (cur[0] is not pre[0] or cur[1] is not pre[1]) and not agent_hooks:
+                    ctx.violation('C14/restart/hooks-changed', f'{where}: start raised {exc!r} and left trace functions {cur}, before they were {pre}', case)
                     return 'violation'
                 model['started'] = d.started
                 model['installed'] = agent_hooks
